@@ -66,7 +66,7 @@ corpus = len([l for l in open(V + "/corpus/fens.txt") if l.strip() and not l.sta
 parts = [rd("00_status.md"), rd("01_why.md"), rd("02_architecture.md"), rd("03_tie.md"), rd("04_breaks.md"), rd("05_inputs.md"),
          "## 6. Per-property design, as built\n\n" + rd("06a_properties.md").split("\n", 1)[1], rd("06c_c08.md") if os.path.exists(V + "/design/06c_c08.md") else "", rd("06b_c12_c14.md"),
          "### 6.1 Seeded regressions and what caught them\n\nEach row is a change written by a sub-agent that was given only the property text and a scratch worktree; `confirmed` = the patch builds, its demonstration fails with it and passes without it, and the stable tests of the touched packages still pass (`tools/seed_verify.py`).  Both result columns are from runs of the property's own check against a worktree with the patch applied (`failing input` = a VIOLATION line with a concrete replay; `obligation/correspondence only` = caught, but the monitors found no input: `no-failing-input-found`; thorough is only run when quick misses).  `first shot` is the machinery as it was when the seed arrived; where it missed, or caught without an input, the monitor or generator was strengthened in a general way (commit messages name the seed) and the seed re-verified: `final`.  Seeds arrived in rounds (-1, -2, -3, ...), each round written against the property text only and told to differ from the earlier ones; the first-shot column of a later round therefore measures how the strengthening generalises.\n\n| seed | change | confirmed | first shot | final |\n|---|---|---|---|---|\n" + seeds_table() + "\n",
-         rd("07_hooks.md"), rd("08_defects.md"), rd("09_borderline.md"), rd("10_trusted.md") + "\n| property | theorems with Print Assumptions | closed | other assumptions reported |\n|---|---|---|---|\n" + axioms_table() + "\n", rd("11_cost.md")]
+         rd("07_hooks.md"), rd("08_defects.md"), rd("09_borderline.md"), rd("10_trusted.md") + "\n| property | theorems with Print Assumptions | closed | other assumptions reported |\n|---|---|---|---|\n" + axioms_table() + "\n", rd("11_cost.md"), rd("12_hypotheses_audit.md"), rd("13_audit_followup.md"), rd("14_false_alarms.md")]
 txt = "\n\n".join(p for p in parts if p)
 for k, v in {"{{COQ_FILES}}": str(len(coq)), "{{COQ_LINES}}": "{:,}".format(lines), "{{SITES}}": nsites, "{{DEFECTS}}": str(defects), "{{SEEDS}}": str(nseeds), "{{CORPUS}}": str(corpus)}.items():
     txt = txt.replace(k, v)
